@@ -72,7 +72,7 @@ _duration_re = re.compile(
         r'(?:(?P<days>\d+)D)?'
         r'(?:T(?:(?P<hours>\d+)H)?'
         r'(?:(?P<minutes>\d+)M)?'
-        r'(?:(?P<seconds>\d+(.\d+)?)S)?)?'
+        r'(?:(?P<seconds>\d+(\.\d+)?)S)?)?'
     )
 
 
